@@ -426,13 +426,13 @@ let step st (f : string array) : string list =
   | "getk" -> [do_getk st (bytes_of_hex (a 1))]
   | "gett" -> [do_gett st (z_of_string (a 1))]
   | "offk" ->
-    (match log_get_by_key h st.s (bytes_of_hex (a 1)) with
+    (match log_offset_by_key h st.s (bytes_of_hex (a 1)) with
      | Err e -> [err e]
-     | Ok (s', m) -> st.s <- s'; ["ok " ^ string_of_z m.moff])
+     | Ok (s', o) -> st.s <- s'; ["ok " ^ string_of_z o])
   | "offt" ->
-    (match log_get_by_time h st.s (z_of_string (a 1)) with
+    (match log_offset_by_time h st.s (z_of_string (a 1)) with
      | Err e -> [err e]
-     | Ok (s', m) -> st.s <- s'; [Printf.sprintf "ok %s %s" (string_of_z m.moff) (string_of_z m.mtime)])
+     | Ok (s', (o, t)) -> st.s <- s'; [Printf.sprintf "ok %s %s" (string_of_z o) (string_of_z t)])
   | "del" ->
     let segs0 = st.s.segs in
     (match log_delete h st.s (parse_offsets (a 1)) with
@@ -888,7 +888,9 @@ let run_check (path : string) =
          c.files_after_migrate <- None; c.migrated <- None;
          mutated c
        | _ -> ())
-    | ["close"] -> c.copen <- false; mutated c
+    | ["close"] ->
+      if c.cro_ then chk "C19" "readonly_handle_changes_no_log_file" (r <> ["err"; "ReadonlyHandleChangedLogFiles"]) r;
+      c.copen <- false; mutated c
     | "pub" :: ms ->
       let msgs = List.map parse_msg ms in
       if c.cro_ then chk "C19" "readonly_rejects_publish" (r = ["err"; "Readonly"]) r
@@ -1067,7 +1069,7 @@ let run_check (path : string) =
           | Some t when Z.leb m.mtime t -> acc
           | _ -> Some m.mtime) None c.a.live;
       mutated c
-    | ["rmindex"; _] | ["idxcut"; _] | ["gc"] | ["sleepms"; _] | ["bkclean"; _] | ["bkhalf"; _] -> ()
+    | ["rmindex"; _] | ["rmindex"; _; _] | ["idxcut"; _] | ["gc"] | ["sleepms"; _] | ["bkclean"; _] | ["bkhalf"; _] -> ()
     | ["migrate"; v] ->
       (match r with
        | "ok" :: _ ->
@@ -1187,14 +1189,18 @@ let codec_step (f : string list) : string =
            | Ok prog -> String.concat "," (List.map render prog)) in
        Printf.sprintf "ok %s %s steps=%s" (hex_or_empty nl)
          (match ni with None -> "none" | Some b -> hex_or_empty b) steps)
-  | ["migrate"; mv; iv; t; k; base; lhx; ihx] ->
-    (* Segment.Migrate on bytes: RecoverCrash.migrate_prog run on the files (rrun), and its steps in the words of the FS tap *)
+  | "migrate" :: mv :: iv :: t :: k :: base :: lhx :: ihx :: stale when List.length stale <= 1 ->
+    (* Segment.Migrate on bytes: RecoverCrash.migrate_prog run on the files (rrun), and its steps in the words of the FS tap;
+       stale = what an earlier migration that died left in <log>.migrate *)
+    let stale_tmp = (match stale with
+        | [s] when String.length s >= 6 && String.sub s 0 6 = "stale:" -> Some (bytes_of_hex (String.sub s 6 (String.length s - 6)))
+        | _ -> None) in
     let p = params_of_toks t k in
     let b = bytes_of_hex lhx in
     (match migrate_prog crc32c fnv64a p (z_of_string base) (ver_of mv) (ver_of iv) b with
      | Err e -> err e
      | Ok prog ->
-       let fin = rrun { rlog = b; rrtmp = None; ridx = opt_hex ihx; ritmp = None } prog in
+       let fin = rrun { rlog = b; rrtmp = stale_tmp; ridx = opt_hex ihx; ritmp = None } prog in
        let fname = function RfLog -> "log" | RfRtmp -> "rtmp" | RfIdx -> "idx" | RfItmp -> "itmp" in
        let render = function
          | RRemove f -> "remove:" ^ fname f
@@ -1202,8 +1208,9 @@ let codec_step (f : string list) : string =
          | RWrite (f, bs) -> Printf.sprintf "write:%s:%d" (fname f) (List.length bs)
          | RFsync f -> "fsync:" ^ fname f
          | RRename (a, b) -> Printf.sprintf "rename:%s>%s" (fname a) (fname b) in
-       Printf.sprintf "ok %s %s steps=%s" (hex_or_empty fin.rlog)
-         (match fin.ridx with None -> "none" | Some x -> hex_or_empty x) (String.concat "," (List.map render prog)))
+       Printf.sprintf "ok %s %s%s steps=%s" (hex_or_empty fin.rlog)
+         (match fin.ridx with None -> "none" | Some x -> hex_or_empty x)
+         (match fin.rrtmp with None -> "" | Some _ -> " extra:.log.migrate") (String.concat "," (List.map render prog)))
   | "mkseg" :: v :: iv :: t :: k :: _base :: ms ->
     (* a clean segment: log bytes and the derived index bytes *)
     let v = ver_of v and p = params_of_toks t k in
@@ -1607,7 +1614,16 @@ let run_delprog (path : string) =
            (if f.(0) = "del" && Array.length f > 1 then begin
                let offs = parse_offsets f.(1) in
                let prog = delete_prog !st.s offs in
-               print_endline (Printf.sprintf "delprog %d %s" !opidx (String.concat " ; " (List.concat (List.map render prog))))
+               print_endline (Printf.sprintf "delprog %d %s" !opidx (String.concat " ; " (List.concat (List.map render prog))));
+               (* C06: the complete program of the Delete - syncs, rewrite, swap - according to DurableDelete.v *)
+               let xfn = function FLog b -> pad b ^ ".log" | FIdx b -> pad b ^ ".index" | FTLog -> "T.log" | FTIdx -> "T.index" in
+               let render_x = function
+                 | XD (DCreate (f, n)) -> Printf.sprintf "create %s %s" (xfn f) (string_of_z n)
+                 | XD (DWrite (f, n)) -> Printf.sprintf "write %s %s" (xfn f) (string_of_z n)
+                 | XD (DFsync f) -> "fsync " ^ xfn f
+                 | XRename (a, b) -> Printf.sprintf "rename %s %s" (xfn a) (xfn b)
+                 | XRemove f -> "remove " ^ xfn f in
+               print_endline (Printf.sprintf "xprog %d %s" !opidx (String.concat " ; " (List.map render_x (delete_full !st.s offs))))
              end);
            (if (f.(0) = "pub" || f.(0) = "pubbig") && Array.length f > 1 then begin
                let prog = publish_prog !st.s in
@@ -1623,7 +1639,7 @@ let run_delprog (path : string) =
             | None -> ()
             | Some ks ->
               let (ops, _) = kinds_ops (head_base !st.s) ks in
-              let fn = function FLog b -> pad b ^ ".log" | FIdx b -> pad b ^ ".index" in
+              let fn = function FLog b -> pad b ^ ".log" | FIdx b -> pad b ^ ".index" | FTLog -> "T.log" | FTIdx -> "T.index" in
               let render_d = function
                 | DCreate (f, n) -> Printf.sprintf "create %s %s" (fn f) (string_of_z n)
                 | DWrite (f, n) -> Printf.sprintf "write %s %s" (fn f) (string_of_z n)
